@@ -292,6 +292,8 @@ class TruncatedGaussianPDF(TruncatedGaussianMeasure):
 
     def __post_init__(self):
         super(TruncatedGaussianPDF, self).__post_init__()
+        # the density is built on the normalised Gaussian, whatever the mass of the given measure
+        self.measure = self.density
         self.constant = self._expectation_integral()
         self.constant = 1.0 / self.constant
 
